@@ -140,6 +140,18 @@ def notify_rules(rep, rid, F):
     ok_exit = all(c is not None and c[0].endswith("queue.empty()") and ((lab == "true") == c[1]) for b, lab, c in exits)
     every = on_every_cycle(fn, loop, rb)
     swapped = precedes_on_all_paths(fn, lambda e: e.get("k") == "call" and callee_short(e) == "swap" and "this->queue_" in T(e), (rb, ri))
+    # the swapped-out list is not private: every entry's q_ points at it, and a timed waiter whose deadline expires
+    # erases its own entry from it under the internal lock - so the caller's lock is held at every access to it
+    lf2 = LockFlow(fn)
+    want = "@" + fn.params[0]["name"]
+    unl = [(b, i, ev) for b, i, ev in fn.all_events() if ev.get("k") == "call" and ev.get("recv") is not None and
+           (P(ev["recv"]) == "queue" or P(ev["recv"]).startswith("queue.")) and callee_short(ev) in ("front", "pop_front", "empty", "begin", "end", "erase", "back", "pop_back")
+           and want not in (lf2.held_before((b, i)) or ())]
+    if unl:
+        rep.bad(rid, fn, loc_of(unl[0][2]), "drain-unlocked", "notify_all touches the swapped-out waiter list (%s) without holding the lock it was given: a timed waiter "
+                "that times out erases its entry from the same list concurrently (waiters are skipped, freed entries resumed)" % callee_short(unl[0][2]))
+    else:
+        rep.ok(rid, fn, "the swapped-out waiter list is accessed only with the caller's lock held")
     if ok_exit and every and swapped:
         rep.ok(rid, fn, "drain loop: leaves only when the swapped-out queue is empty; every iteration resumes once")
     else:
